@@ -313,6 +313,20 @@ pub fn scenarios(prop: &str, tier: &str) -> Vec<Scenario> {
                 }
             }
         }
+        // RRT*: a step far BELOW the resolution (0.02 = 0.07 L) with a rewiring radius far above it: the
+        // extension is a single check step, the choose-parent / rewiring motions are not. The goal sits
+        // 0.45 from the start so that short runs return paths whose edges come from choose-parent.
+        if matches!(prop, "C03" | "C01") && kit != "SO3" && kit != "SE3" {
+            let near_goal = with_kit!(kit, toward(&b, 0.45));
+            let l = crate::refspace::lvs(&b.spec);
+            let mid = with_kit!(kit, toward(&b, 0.22));
+            for (wn, w) in [("free", b.world_free()), ("pebble", b.world_named("pebble", vec![ObstSpec::Ball(mid.clone(), 0.15 * l)]))] {
+                let mut sc = b.scenario(w, b.params(Pk::Star, 0.02, 50.0, 0.0), &format!("{prop}/{kit}/{wn}/RRTStarx0.02/r50/tiny-step"));
+                sc.goal_balls = vec![(near_goal.clone(), 0.05)];
+                sc.goal_samples = vec![near_goal.clone()];
+                out.push(sc);
+            }
+        }
         // C03: resolution far finer than the step (edges of 100 L and more). A cap on the number
         // of validity queries per motion, or any spacing derived from the step instead of L, shows
         // only here. Reduced alphabet (start + the 4-letter sub-alphabet) because one motion check
@@ -358,6 +372,17 @@ fn farthest_state<K: Kit>(b: &Base, s: &crate::kit::V) -> crate::kit::V {
 }
 fn marginal_ball_of<K: Kit>(b: &Base, t: &crate::kit::V, toward: &crate::kit::V, r: f64, depth: f64) -> ObstSpec {
     crate::scen::marginal_ball::<K>(&b.spec, t, toward, r, depth)
+}
+
+/// The state at distance `d` from the start on the way to the first goal sample.
+fn toward<K: Kit>(b: &Base, d: f64) -> crate::kit::V {
+    use oxmpl::base::space::StateSpace;
+    let sp = K::build(&b.spec);
+    let s = K::from_v(&b.alphabet[b.start]);
+    let g = K::from_v(&b.goal_samples[0]);
+    let mut out = s.clone();
+    sp.interpolate(&s, &g, d / sp.distance(&s, &g), &mut out);
+    K::to_v(&out)
 }
 
 /// A state just outside the goal ball, on the way from its centre to the start.
